@@ -574,6 +574,8 @@ def replay(rj):
         if rj["kind"] == "ending":
             o = _ending_case((rj["scenario"], rj["opi"], rj["compound"], ninja, vcmd))
             o.pop("scenario_json", None)
+        elif rj["kind"] == "signal-outside-wait":
+            o = _signal_outside_wait_case((rj["signal"], ninja))
         elif rj["kind"] == "signal":
             o = _signal_case((rj["scenario"], rj["wait"], rj["signal"], rj["partial"], ninja, vcmd, nx))
         else:
@@ -585,7 +587,61 @@ def replay(rj):
     return 1 if seen == 2 else 0
 
 
+# ---- a signal that arrives while ninja is NOT waiting in ppoll() -------------------------------------------------
+# A command that closes its stdout/stderr and keeps running makes ninja see EOF on the pipe and sit in waitpid() for it:
+# a signal sent then is pending (blocked outside ppoll) and must still stop the build once the command is gone.
+OUTSIDE_WAIT_MANIFEST = """rule detach
+  command = exec >/dev/null 2>&1; sleep 1.2; touch $out
+rule quick
+  command = touch $out
+build a: detach
+build b: quick a
+default b
+"""
+
+
+def _signal_outside_wait_case(args):
+    signame, ninja = args
+    root = tempfile.mkdtemp(prefix="rbsig.", dir=rb.SHM)
+    out = {"signal": signame, "scenario": "signal_outside_wait", "wait": -1, "partial": False, "problems": []}
+    try:
+        with open(os.path.join(root, "build.ninja"), "w") as f:
+            f.write(OUTSIDE_WAIT_MANIFEST)
+        p = subprocess.Popen([ninja, "-j2"], cwd=root, stdout=subprocess.PIPE, stderr=subprocess.STDOUT, start_new_session=True)
+        time.sleep(0.5)
+        os.kill(p.pid, getattr(signal, signame))
+        try:
+            o = p.communicate(timeout=15)[0].decode("latin-1")
+        except subprocess.TimeoutExpired:
+            p.kill()
+            o = p.communicate()[0].decode("latin-1")
+            out["problems"].append("ninja did not exit within 15 s of the signal")
+        out["exit"] = p.returncode
+        if p.returncode != 130 and not out["problems"]:
+            out["problems"].append("%s arrived while ninja was waiting for a command outside ppoll(): exit status %s instead of 130; output: %s"
+                                   % (signame, p.returncode, o[-200:]))
+        if os.path.exists(os.path.join(root, "b")):
+            out["problems"].append("%s arrived while ninja was waiting for a command outside ppoll(): the build went on and started the next command (b exists)" % signame)
+        if os.path.exists(os.path.join(root, ".ninja_lock")):
+            out["problems"].append("lock file left behind")
+    except Exception as e:  # noqa
+        out["problems"].append("exception: %r" % (e,))
+    finally:
+        shutil.rmtree(root, ignore_errors=True)
+    return out
+
+
+def signal_outside_wait():
+    ninja, _ = rb.build_tools()
+    with multiprocessing.Pool(3) as pool:
+        return pool.map(_signal_outside_wait_case, [(s, ninja) for s in ("SIGINT", "SIGTERM", "SIGHUP")])
+
+
 def c07_process_level(c):
+    for p in signal_outside_wait():
+        if p["problems"]:
+            c.violation("C07/process-level %s: %s" % (p["signal"], "; ".join(p["problems"])),
+                        {"engine": "rb", "kind": "signal-outside-wait", "signal": p["signal"], "problems": p["problems"]})
     r = signals(c.tier)
     scs = {s["name"]: s for s in templates_c07.templates(c.tier)}
     seen = set()
